@@ -311,6 +311,54 @@ pub open spec fn meta_parsed(r0: Seq<u8>, r1: Seq<u8>, m: PackageMetadata) -> bo
     &&& ser_header(m.signature) == r0.subrange(96, 100) + zeros(4) + r0.subrange(104, 96 + ls)
     &&& ser_header(m.header) == r0.subrange(h0, h0 + 4) + zeros(4) + r0.subrange(h0 + 8, h0 + lh)
 }
+// ---- C01 closed: parse, then write, reproduces the consumed bytes up to reserved bytes / padding ----
+/// the canonical form of the metadata bytes: reserved bytes of both intros and the signature padding zeroed
+pub open spec fn canon_meta(r0: Seq<u8>, m: PackageMetadata) -> Seq<u8> {
+    let ls = hdr_len(m.signature);
+    let pad = sigpad(m.signature.index_header.data_section_size as int);
+    let lh = hdr_len(m.header);
+    let h0 = 96 + ls + pad;
+    r0.subrange(0, 100) + zeros(4) + r0.subrange(104, 96 + ls) + zeros(pad)
+        + r0.subrange(h0, h0 + 4) + zeros(4) + r0.subrange(h0 + 8, h0 + lh)
+}
+pub open spec fn ser_meta(m: PackageMetadata) -> Seq<u8> {
+    ser_lead(m.lead) + ser_header(m.signature) + zeros(sigpad(m.signature.index_header.data_section_size as int)) + ser_header(m.header)
+}
+impl PackageMetadata {
+    /// proved in unit c14_writers (V:PackageMetadata::write + lemma_header_onto / lemma_*_onto_grow),
+    /// stated here in the plain (non-accumulator) form
+    #[verifier::external_body]
+    pub fn write(&self, out: &mut Vec<u8>) -> (r: Result<(), Error>)
+        ensures r is Ok, final(out)@ == old(out)@ + ser_meta(*self),
+    { unimplemented!() }
+}
+/// C01 for package metadata: every accepted byte string is reproduced by write, the only
+/// differences being the zeroed reserved bytes and signature padding; and the written bytes have
+/// the same length as what was consumed (so segment boundaries are preserved).
+pub fn c01_roundtrip_metadata(input: &mut impl VRead) -> (r: Result<Vec<u8>, Error>)
+    ensures r is Ok ==> exists|m: PackageMetadata| {
+        &&& meta_parsed(old(input).remaining(), final(input).remaining(), m)
+        &&& #[trigger] canon_meta(old(input).remaining(), m) == r->Ok_0@
+        &&& r->Ok_0@.len() == meta_len(m)
+    },
+{
+    let ghost r0 = input.remaining();
+    let m = PackageMetadata::parse(input)?;
+    let mut out: Vec<u8> = Vec::new();
+    m.write(&mut out)?;
+    proof {
+        let ls = hdr_len(m.signature);
+        let pad = sigpad(m.signature.index_header.data_section_size as int);
+        let lh = hdr_len(m.header);
+        let h0 = 96 + ls + pad;
+        lemma_ser_header_len(m.signature);
+        lemma_ser_header_len(m.header);
+        assert(r0.subrange(0, 96) + (r0.subrange(96, 100) + zeros(4) + r0.subrange(104, 96 + ls)) =~= r0.subrange(0, 100) + zeros(4) + r0.subrange(104, 96 + ls));
+        assert(out@ =~= canon_meta(r0, m));
+        assert(zeros(pad).len() == pad);
+    }
+    Ok(out)
+}
 // vacuity canaries: must FAIL
 pub fn canary_c01_read(input: &mut impl VRead)
 {
@@ -334,6 +382,7 @@ OBLIGATIONS = {
     'Header::parse_signature': ['C01', 'C14', 'C04'],
     'PackageMetadata::parse': ['C01', 'C14', 'C04'],
     'Package::parse': ['C01', 'C14', 'C04'],
+    'c01_roundtrip_metadata': ['C01'],
     'lemma_ser_entries_frame': ['C01'],
     'lemma_entry_bytes': ['C01'],
     'lemma_intro_bytes': ['C01'],
